@@ -11,7 +11,9 @@ import (
 	"math/rand"
 	"path/filepath"
 	"sync"
+	"sync/atomic"
 	"testing"
+	"time"
 )
 
 type vC09Cfg struct {
@@ -43,12 +45,13 @@ func vC09Run(tr *vTrace, id string, c vC09Cfg, salt int64) {
 	}
 	if c.warm {
 		var wg sync.WaitGroup
+		var stop atomic.Bool
 		for g := 0; g < 8; g++ {
 			wg.Add(1)
 			go func(g int) {
 				defer wg.Done()
 				r := rand.New(rand.NewSource(salt*31 + int64(g)))
-				for i := 0; i < 3000; i++ {
+				for i := 0; i < 3000 || (!stop.Load() && i < 200000); i++ {
 					k := 5000000 + r.Intn(4*c.cap)
 					if r.Intn(3) == 0 {
 						st.Set(k, k, costOf(k), 0)
@@ -58,6 +61,28 @@ func vC09Run(tr *vTrace, id string, c vC09Cfg, salt int64) {
 				}
 			}(g)
 		}
+		// for part of that phase somebody else holds the policy lock (SaveCache, a slow listener, a long wheel
+		// advance do): readers pile up on full stripes meanwhile
+		for rep := 0; rep < 3; rep++ {
+			time.Sleep(300 * time.Microsecond)
+			st.policyMu.Lock()
+			// many readers at once: each one that fills a stripe waits for the policy lock with its batch
+			var wg2 sync.WaitGroup
+			for g := 0; g < 3*len(st.stripedBuffer); g++ {
+				wg2.Add(1)
+				go func(g int) {
+					defer wg2.Done()
+					r := rand.New(rand.NewSource(salt*77 + int64(rep*1000+g)))
+					for i := 0; i < 400; i++ {
+						st.Get(5000000 + r.Intn(4*c.cap))
+					}
+				}(g)
+			}
+			time.Sleep(3 * time.Millisecond)
+			st.policyMu.Unlock()
+			wg2.Wait()
+		}
+		stop.Store(true)
 		wg.Wait()
 		st.Wait()
 	}
